@@ -11,6 +11,7 @@ package hproxy
 import (
 	"context"
 	"crypto/sha256"
+	"encoding/json"
 	"errors"
 	"fmt"
 	"sort"
@@ -221,22 +222,19 @@ func c09Check(r *vlib.Run, tp topo, assign map[string]int) {
 	}
 }
 
-func TestVerifC09(t *testing.T) {
-	r := vlib.NewRun("C09")
-	var rc c09Case
-	if r.LoadReplay(&rc) {
-		vdec.Run(rc.Assign, runC09(r, rc.Topo, rc.Assign))
-		c09Check(r, rc.Topo, rc.Assign)
-		r.Finish(t, "fault_enumeration", "replay", nil, nil)
-		return
-	}
-	type plan struct {
-		tp    topo
-		bound int
-	}
-	var plans []plan
+type c09Plan struct {
+	tp    topo
+	bound int
+}
+
+type c09Job struct {
+	Idx int `json:"idx"`
+}
+
+func c09Plans(thorough bool) ([]c09Plan, int) {
+	var plans []c09Plan
 	bigBound := 4
-	if r.Thorough() {
+	if thorough {
 		bigBound = 6
 	}
 	for hs := 1; hs <= 3; hs++ {
@@ -250,25 +248,70 @@ func TestVerifC09(t *testing.T) {
 				if hs*hr >= 6 && cold[0]*cold[1] >= 2 {
 					b = bigBound - 1
 				}
-				plans = append(plans, plan{tp, b})
+				plans = append(plans, c09Plan{tp, b})
 			}
 		}
 	}
-	for _, p := range plans {
-		if r.Expired() {
-			break
-		}
-		tp := p.tp
-		st := vdec.Explore(p.bound, 3_000_000, runC09(r, tp, nil), func(assign map[string]int) bool {
-			c09Check(r, tp, assign)
-			return !r.Expired()
-		})
-		r.Note("%s bound=%d executions=%d max_events=%d capped=%v", tp, p.bound, st.Execs, st.MaxAsked, st.Capped)
-		if st.Capped {
-			r.Cap(fmt.Sprintf("%s stopped at %d executions", tp, st.Execs))
-		}
-		r.Add("topologies", 1)
+	return plans, bigBound
+}
+
+// c09Handle explores one plan inside a worker subprocess.
+func c09Handle(job json.RawMessage) any {
+	var j c09Job
+	if err := json.Unmarshal(job, &j); err != nil {
+		panic(err)
 	}
+	r := vlib.NewSubRun("C09")
+	plans, _ := c09Plans(r.Thorough())
+	p := plans[j.Idx]
+	tp := p.tp
+	st := vdec.Explore(p.bound, 3_000_000, runC09(r, tp, nil), func(assign map[string]int) bool {
+		c09Check(r, tp, assign)
+		return !r.Expired()
+	})
+	r.Note("%s bound=%d executions=%d max_events=%d capped=%v", tp, p.bound, st.Execs, st.MaxAsked, st.Capped)
+	if st.Capped {
+		r.Cap(fmt.Sprintf("%s stopped at %d executions", tp, st.Execs))
+	}
+	r.Add("topologies", 1)
+	return r.Export()
+}
+
+// TestVerifWorker serves the plan workers of C09 and C16.
+func TestVerifWorker(t *testing.T) {
+	vlib.ServeWorker(map[string]vlib.Handler{"c09": c09Handle, "c16": c16Handle})
+}
+
+func TestVerifC09(t *testing.T) {
+	r := vlib.NewRun("C09")
+	var rc c09Case
+	if r.LoadReplay(&rc) {
+		vdec.Run(rc.Assign, runC09(r, rc.Topo, rc.Assign))
+		c09Check(r, rc.Topo, rc.Assign)
+		r.Finish(t, "fault_enumeration", "replay", nil, nil)
+		return
+	}
+	plans, bigBound := c09Plans(r.Thorough())
+	// the explorer's state is process-global: the plans are sharded over worker subprocesses
+	pool := vlib.NewPool("c09", vlib.Workers())
+	defer pool.Close()
+	vlib.Parallel(len(plans), vlib.Workers(), func(i int) {
+		if r.Expired() {
+			return
+		}
+		var exp vlib.Export
+		jr, err := pool.Do(c09Job{Idx: i}, &exp, 40*time.Minute)
+		switch {
+		case err != nil:
+			panic(err)
+		case jr.Died:
+			r.Violation(fmt.Sprintf("bulk client process died %s", plans[i].tp), c09Case{Topo: plans[i].tp}, jr.Stderr)
+		case jr.Hung:
+			r.Cap(fmt.Sprintf("%s did not finish within the horizon", plans[i].tp))
+		default:
+			r.Merge(exp)
+		}
+	})
 	r.Sample(c09Case{topo{2, 2, 1, 1}, map[string]int{"bulk/hot-s0-r1/#1": 1, "breaker/bulk_hot/s1/attempt0": 1}})
 	ev := r.Get("evaluations")
 	r.Finish(t, "fault_enumeration",
